@@ -1,4 +1,4 @@
-import GomlVerif.Lemmas.MonoTerm
+import GomlVerif.Lemmas.MonoSem
 /-!
 # C07 — generic code behaves identically at every instantiation and is fully specialised
 
@@ -7,7 +7,7 @@ by the correspondence run of `./check C07` (model on the real Core dump = real M
 Helper lemmas live in `Lemmas/Mono*.lean`.
 -/
 namespace Goml.Mono
-open Goml Goml.Closed
+open Goml Goml.Closed Goml.Sem
 
 /-! ## P1 — `unify(template, actual)` computes a substitution that instantiates the template -/
 
@@ -146,6 +146,72 @@ where
           · exact isSome_of_extends (unify_dom_aux.unify_sound_list_ext ts as σ1 σ' h) (unify_dom_aux t a σ σ1 h1 x hx)
           · exact ih as σ1 σ' h hl x hx
 
+
+/-! ## P6 — behaviour: the specialised program computes what the generic one does -/
+
+/-- `mono_preserves`, partial.  `P` is the Core program (`P.fns = F`), `P'` a program that contains, for
+every instance `(f, σ)` of a universe `U`, the function `spec_name_for(f, σ)` with body `monoE F σ f.body`
+(`Linked` — what `instances_unique`/`monoExpr_is_pure` say of the output of `mono`, plus distinct names).
+Then for every expression of the fragment `FragE` — data, `let`, `if`, `match`, `while`, operators, direct
+calls of builtins, of monomorphic functions and of generic functions (renamed to their instance) — and every
+amount of fuel, evaluating the specialised expression in `P'` gives exactly the result (value, output,
+store, failure, fuel exhaustion) of evaluating the generic expression in `P`: the instance
+`specNameFor f σ` behaves as the generic body with `σ` applied, types being irrelevant to `Sem`.
+Missing for the full statement: closures, `go`, `dyn`, calls through a local variable, generic functions
+used as values (the two sides then compute values that differ in function names / closure bodies, so the
+statement needs a value relation), trait-bounded calls (`traitcall_commutes` below), phase 2. -/
+theorem mono_preserves_partial (F : List Fn) (isLocal : String → Bool) (U : String → Subst → Prop) (Ext : String → Prop)
+    {P P' : Prog} (L : Linked F isLocal U Ext P P') (fuel : Nat) (σ : Subst) (e : Expr) (ρ : Env) (w : World)
+    (hfr : FragE F isLocal U Ext σ e) (hρ : EnvLocal isLocal ρ) :
+    eval fuel P' ρ w (monoE F σ e).1 = eval fuel P ρ w e :=
+  (sim_all F isLocal U Ext L fuel).1 σ e ρ w hfr hρ
+
+/-- calling the instance `specNameFor f σ` in the specialised program = calling `f` in the generic one -/
+theorem instance_behaves_as_generic (F : List Fn) (isLocal : String → Bool) (U : String → Subst → Prop) (Ext : String → Prop)
+    {P P' : Prog} (L : Linked F isLocal U Ext P P') (fuel : Nat) (f : Fn) (σ : Subst) (w : World) (vs : List Val)
+    (hf : f ∈ F) (hff : findFn F f.name = some f) (hu : U f.name σ) :
+    Sem.apply fuel P' w (.fn (specName f.name σ)) vs = Sem.apply fuel P w (.fn f.name) vs :=
+  (sim_all F isLocal U Ext L fuel).2.2.2 f σ w vs hf hff hu
+
+/-- whole programs: same outcome (stdout, way of ending, extern events) for every amount of fuel -/
+theorem mono_preserves_run_partial (F : List Fn) (isLocal : String → Bool) (U : String → Subst → Prop) (Ext : String → Prop)
+    {P P' : Prog} (L : Linked F isLocal U Ext P P') (fuel : Nat) (main : Fn)
+    (hm : findFn F "main" = some main) (hg : fnIsGeneric main = false) :
+    Sem.run fuel P' = Sem.run fuel P := by
+  obtain ⟨hmem, hname⟩ := findFn_mem hm
+  have := instance_behaves_as_generic F isLocal U Ext L fuel main [] { eager := true } []
+    hmem (by rw [hname]; exact hm) (L.seeds main hmem hg)
+  rw [specName_nil, hname] at this
+  simp only [Sem.run, this]
+
+/-- `traitcall_commutes`.  Core: `ETraitCall Tr::m(recv, args)` is dispatched by `Sem` on the runtime value
+of the receiver.  Mono: the call is resolved statically to `trait_impl#Tr#τ#m`, `τ` the substituted
+receiver type.  If the receiver's value has the key of `τ` (the runtime type is the static type) and the
+impl table is coherent for `(Tr, τ, m)`, both apply the same function to the same arguments in the same
+world (the direct call spends one more unit of fuel on evaluating the callee name). -/
+theorem traitcall_commutes (P P' : Prog) (n : Nat) (ρ : Env) (w w1 w2 : World) (tr m : String) (ty nty fty τ : Ty)
+    (recv recv' : Expr) (args args' : List Expr) (v : Val) (vs : List Val)
+    (hr : eval n P ρ w recv = .ok v w1) (ha : evalList n P ρ w1 args = .ok vs w2)
+    (hr' : eval n P' ρ w recv' = .ok v w1) (ha' : evalList n P' ρ w1 args' = .ok vs w2)
+    (hk : valKey v = Sem.tyKey τ)
+    (hcoh : P.impls.find? (fun i => i.1 == tr && i.2.1 == Sem.tyKey τ && i.2.2.1 == m) =
+      some (tr, Sem.tyKey τ, m, traitImplFnName tr τ m))
+    (hloc : lookupEnv ρ (traitImplFnName tr τ m) = none) :
+    eval (n + 1) P ρ w (.traitCall tr m ty recv args) = Sem.apply n P w2 (.fn (traitImplFnName tr τ m)) (v :: vs) ∧
+    eval (n + 2) P' ρ w (.call nty (.var (traitImplFnName tr τ m) fty) (recv' :: args')) =
+      Sem.apply (n + 1) P' w2 (.fn (traitImplFnName tr τ m)) (v :: vs) := by
+  constructor
+  · rw [eval_traitCall P n ρ w w1 w2 tr m ty recv args v vs hr ha, hk, hcoh]
+  · simp only [eval, hloc, evalList, hr', ha']
+
+/-- the callee `mono_expr` writes for an `ETraitCall` is `trait_impl#Tr#τ#m` with `τ` the type of the
+transformed receiver (so `traitcall_commutes` applies with that `τ`) -/
+theorem traitcall_resolution (F : List Fn) (σ : Subst) (tr m : String) (ty : Ty) (recv : Expr) (args : List Expr) :
+    ∃ fty, (monoE F σ (.traitCall tr m ty recv args)).1 =
+      .call (substTy σ ty) (.var (traitImplFnName tr (getTy (monoE F σ recv).1) m) fty)
+        ((monoE F σ recv).1 :: (monoEs F σ args).1) :=
+  ⟨_, monoE_traitCall F σ tr m ty recv args⟩
+
 /-! ## P5 — termination -/
 
 /-- `mono_terminates`, partial: if the instances reachable from the seeds lie in a universe `U` that is
@@ -239,6 +305,100 @@ example : ∃ c, phase1 20 exProg = some c ∧ c.work = [] ∧ (c.instances.map 
   cases h : phase1 20 exProg with
   | none => exact absurd h (by decide +kernel)
   | some c => obtain ⟨a, b, _, d⟩ := instances_unique exProg 20 c h; exact ⟨c, rfl, a, b, d⟩
+
+/-! ## non-vacuity of `mono_preserves_partial`: the hypotheses hold for the `choose` excerpt and the model's own output -/
+
+def mainC : Fn :=
+  { name := "main", generics := [], params := [], ret := .unit,
+    body :=
+      .letE "a/0" (.call i32 (.var "choose" (.func [.bool, i32, i32] i32)) [.prim (.bool true), lit 1, lit 2]) <|
+      .letE "b/1" (.call .string (.var "choose" (.func [.bool, .string, .string] .string)) [.prim (.bool false), .prim (.str "x"), .prim (.str "y")]) <|
+      .call .unit (.var "string_println" (.func [.string] .unit)) [.var "b/1" .string] }
+def progC : List Fn := [chooseFn, mainC]
+def isLoc (s : String) : Bool := s.toList.contains '/'
+def UC (n : String) (σ : Subst) : Prop := (n, σ) ∈ [("main", []), ("choose", [("T", i32)]), ("choose", [("T", Ty.string)])]
+def ExtC (n : String) : Prop := n = "string_println"
+def PC : Prog := { fns := progC }
+def PC' : Prog := { fns := ((phase1 10 progC).map (·.out)).getD [] }
+
+example : (PC'.fns.map (·.name)) = ["main", "choose__T_int32", "choose__T_string"] := by decide +kernel
+
+theorem linkedC : Linked progC isLoc UC ExtC PC PC' := by
+  refine ⟨rfl, ?_, ?_, ?_, ?_, ?_, ?_⟩
+  · intro f σ hf hu
+    simp only [progC, List.mem_cons, List.not_mem_nil, or_false] at hf
+    simp only [UC, List.mem_cons, Prod.mk.injEq, List.not_mem_nil, or_false] at hu
+    rcases hf with rfl | rfl
+    · rcases hu with ⟨h, _⟩ | ⟨_, rfl⟩ | ⟨_, rfl⟩
+      · exact absurd h (by decide)
+      · rfl
+      · rfl
+    · rcases hu with ⟨_, rfl⟩ | ⟨h, _⟩ | ⟨h, _⟩
+      · rfl
+      · exact absurd h (by decide)
+      · exact absurd h (by decide)
+  · intro f σ hf hu
+    simp only [progC, List.mem_cons, List.not_mem_nil, or_false] at hf
+    simp only [UC, List.mem_cons, Prod.mk.injEq, List.not_mem_nil, or_false] at hu
+    have hvar : ∀ (x : String) (t : Ty), isLoc x = true → specializeValueP progC x t = none := by
+      intro x t hx
+      have : findFn progC x = none := by
+        simp only [findFn, progC, List.find?_cons, List.find?_nil, chooseFn, mainC]
+        have h1 : ("choose" == x) = false := by
+          rw [beq_eq_false_iff_ne]; rintro rfl; exact absurd hx (by decide)
+        have h2 : ("main" == x) = false := by
+          rw [beq_eq_false_iff_ne]; rintro rfl; exact absurd hx (by decide)
+        simp [h1, h2]
+      simp [specializeValueP, this]
+    rcases hf with rfl | rfl
+    · rcases hu with ⟨h, _⟩ | ⟨_, rfl⟩ | ⟨_, rfl⟩
+      · exact absurd h (by decide)
+      all_goals
+        simp only [chooseFn, FragE]
+        exact ⟨hvar _ _ (by decide), hvar _ _ (by decide), hvar _ _ (by decide)⟩
+    · rcases hu with ⟨_, rfl⟩ | ⟨h, _⟩ | ⟨h, _⟩
+      · simp only [mainC, lit, FragE, FragL, and_true, true_and]
+        refine ⟨by decide, ⟨by decide, ?_⟩, by decide, ⟨by decide, ?_⟩, by decide, hvar _ _ (by decide), ?_⟩
+        · exact Or.inr (Or.inr ⟨chooseFn, [("T", i32)], [("T", i32)], [("T", i32)], rfl, rfl, rfl, rfl, rfl,
+            by simp [UC, chooseFn], rfl⟩)
+        · exact Or.inr (Or.inr ⟨chooseFn, [("T", .string)], [("T", .string)], [("T", .string)], rfl, rfl, rfl, rfl, rfl,
+            by simp [UC, chooseFn], rfl⟩)
+        · exact Or.inl ⟨rfl, rfl⟩
+      · exact absurd h (by decide)
+      · exact absurd h (by decide)
+  · intro f hf hg
+    simp only [progC, List.mem_cons, List.not_mem_nil, or_false] at hf
+    rcases hf with rfl | rfl
+    · exact absurd hg (by decide)
+    · simp [UC, mainC]
+  · intro f hf p hp
+    simp only [progC, List.mem_cons, List.not_mem_nil, or_false] at hf
+    rcases hf with rfl | rfl
+    · simp only [chooseFn, List.mem_cons, List.not_mem_nil, or_false] at hp
+      rcases hp with rfl | rfl | rfl <;> decide
+    · simp [mainC] at hp
+  · intro n hn
+    simp only [ExtC] at hn
+    subst hn
+    exact ⟨rfl, rfl⟩
+  · intro f hf σ hu
+    simp only [progC, List.mem_cons, List.not_mem_nil, or_false] at hf
+    simp only [UC, List.mem_cons, Prod.mk.injEq, List.not_mem_nil, or_false] at hu
+    rcases hf with rfl | rfl
+    · rcases hu with ⟨h, _⟩ | ⟨_, rfl⟩ | ⟨_, rfl⟩
+      · exact absurd h (by decide)
+      · decide +kernel
+      · decide +kernel
+    · rcases hu with ⟨_, rfl⟩ | ⟨h, _⟩ | ⟨h, _⟩
+      · decide +kernel
+      · exact absurd h (by decide)
+      · exact absurd h (by decide)
+
+/-- the specialised excerpt prints what the generic one prints, for every amount of fuel -/
+example (fuel : Nat) : Sem.run fuel PC' = Sem.run fuel PC :=
+  mono_preserves_run_partial progC isLoc UC ExtC linkedC fuel mainC rfl rfl
+
+example : (Sem.run 100 PC').out = "y\n" := by decide +kernel
 
 /-! ## polymorphic recursion: no finite universe exists, and the loop does not end -/
 
